@@ -173,7 +173,7 @@ Proof.
     - now apply chain_value. }
   unfold run, chain_prog. cbn [run_builds exec_top].
   rewrite exec_assign_unfold, Hexpr. cbn [rbind].
-  destruct v; destruct d; reflexivity.
+  destruct v; destruct d; vm_compute; reflexivity.
 Qed.
 
 (* every such program, every fuel: the asp run and the CPython run are the same *)
